@@ -44,6 +44,7 @@ typedef struct blk {
     uint32_t state;      /* 1 live, 2 freed */
     uint32_t tag;        /* claim counter used by the census */
     uint64_t seq;        /* allocation sequence number within the case */
+    uint32_t origin;     /* who handed the block out: 'U' user hook, 'L' C library entry point, 0 driver */
     struct blk *nextall; /* all blocks of the case */
     void *payload;
 } blk;
